@@ -553,7 +553,8 @@ static int32_t makeHsRecord(ssl_t *ssl,
 {
     unsigned char *c, *end;
     unsigned char *encryptStart, *encryptEnd;
-    unsigned char *msgEnd = msgStart + msgLen;
+    /* msgStart is NULL for messages with an empty body (EndOfEarlyData) */
+    unsigned char *msgEnd = (msgStart != NULL) ? msgStart + msgLen : NULL;
     uint8_t recordType = SSL_RECORD_TYPE_HANDSHAKE;
     psSize_t messageSize;
     int32_t rc;
